@@ -298,8 +298,16 @@ def pow_hook(engine, a, b, cx, lineno):
 
 
 class UpdateStepSizeBody(Contract):
-    """Real body of update_step_size against the controller contract of C14."""
+    """Real body of update_step_size against the controller contract of C14.
+
+    clauses='property': what the property itself demands of the controller (positive step; a rejected step is retried strictly smaller,
+    by a uniform factor c < 1 and never below a fifth);  clauses='helper': the additional facts the call-site contract
+    UpdateStepSizeContract hands to the modular proof of integrate() (an accepted step never shrinks, factor in [1/5, 7/5]).  The property
+    does not demand the helper clauses: when they fail the modular proof is not used and the loop is decided with the controller inlined."""
     qualname = 'torchsde._core.adaptive_stepping.update_step_size'
+
+    def __init__(self, clauses='all'):
+        self.clauses = clauses
 
     def harness(self, E, cx):
         a = {'error_estimate': cx.real('err'), 'prev_step_size': cx.real('prev')}
@@ -326,6 +334,11 @@ class UpdateStepSizeBody(Contract):
             ('accept-never-shrinks', z3.Implies(err <= 1, z3.And(new.e >= prev, new.e <= z3.RealVal('7/5') * prev))),
             ('bounded-factor', z3.And(new.e >= z3.RealVal('1/5') * prev, new.e <= z3.RealVal('7/5') * prev)),
         ]
+        helper = ('accept-never-shrinks', 'bounded-factor')
+        if self.clauses == 'property':
+            out = [o for o in out if o[0] not in helper]
+        elif self.clauses == 'helper':
+            out = [o for o in out if o[0] in helper]
         return out
 
 
